@@ -20,9 +20,9 @@ PROPS = {
     'C17': {'units': ['cache', 'rcplug', 'backcfg', 'order', 'meta'], 'kani': [], 'only': {'order': r'lane_resolution', 'meta': r'recorded_packing|with_public_alu_lanes|with_min_trace_height'}},
     'C10': {'units': ['sched', 'tracegen', 'ptrace', 'vrfy', 'extkind', 'order', 'prep', 'degpad', 'meta'], 'kani': [], 'only': {'order': r'lane_resolution', 'prep': r'H_a_built_circuit_is_never_refused|a_free_slot_first_read_as_b', 'meta': r'with_min_trace_height|with_horner_pack_k|with_public_alu_lanes|TablePacking::new|recorded_packing'}},
     'C18': {'units': ['dsu', 'order', 'pphase', 'fvalid', 'iterord', 'hashord'], 'kani': []},
-    'C14': {'units': ['pack', 'pack2', 'pack3', 'pubin'], 'kani': []},
+    'C14': {'units': ['pack', 'pack2', 'pack3', 'pubin'], 'kani': [], 'exclude': r'H_each_instances_values_have_the_length'},
     'C12': {'units': ['bits', 'chal', 'coef', 'rcair', 'prep', 'cbconn'], 'kani': [], 'only': {'chal': r'canonical_width', 'prep': r'operand_[ac]_takes_part_in_the_witness_bus'}},
-    'C15': {'units': ['shape', 'bshape', 'openin', 'hmerge', 'bprep', 'c15guard', 'pack'], 'kani': [], 'only': {'openin': r'per_matrix_shape_and_grouping|compute_single_reduced_opening|height_group', 'pack': r'OpenedValuesTargets::new'}},
+    'C15': {'units': ['shape', 'bshape', 'openin', 'hmerge', 'bprep', 'c15guard', 'pack', 'pubin'], 'kani': [], 'only': {'openin': r'per_matrix_shape_and_grouping|compute_single_reduced_opening|height_group', 'pack': r'OpenedValuesTargets::new', 'pubin': r'H_each_instances_values_have_the_length'}},
     'C13': {'units': ['sym', 'symx', 'airlay'], 'kani': []},
     'C09': {'units': ['prep', 'mult', 'pread', 'pphase', 'ptrace', 'rcair'], 'kani': [], 'exclude': r'H_the_preprocessed_row_of_a_constant_commits_its_value|H_a_built_circuit_is_never_refused'},
     'C08': {'units': ['mmcs', 'hash', 'hashb', 'mbind', 'vbatch', 'vbatchx', 'a4sched', 'a4path'], 'kani': []},
